@@ -2,7 +2,7 @@
 import json, random, struct
 from harness import tlc, engine, wire
 from harness.common import Machinery
-from checks.c06 import run_tlc, int_valued
+from checks.c06 import run_tlc, int_valued, judge_batched
 
 ENUM_CFG = "INIT EnumInit\nNEXT EnumNext\nCONSTRAINT EnumEmit\nINVARIANT LawsHold\nCHECK_DEADLOCK FALSE\n"
 JUDGE_CFG = "INIT JudgeInit\nNEXT JudgeNext\nCHECK_DEADLOCK FALSE\n"
@@ -93,7 +93,7 @@ def run(rep):
         recs.append(rec)
     if len(recs) != len(allc):
         raise Machinery("engine returned %d results for %d cases" % (len(recs), len(allc)))
-    verdicts, st, tr, wall = tlc.judge(rep.pid, "C18", recs, JUDGE_CFG, timeout=2400)
+    verdicts, st, tr = judge_batched(rep.pid, "C18", recs, JUDGE_CFG)
     rep.add_judge(len(recs), st, tr)
     rep.evaluations = len(recs)
     got = {v["id"]: v for v in verdicts}
